@@ -7,7 +7,8 @@ CHECKS = {
         "text": "For all inputs at once: every listed entry point has the mismatch-implies-panic guard (exact condition, right dimension, "
                 "!=-form) ahead of every storage access, own or through the function it forwards to; every by-reference operand is a shared "
                 "reference to Freeze data in a crate without unsafe (so it cannot be changed: a type-system proof); every consuming operator "
-                "impl forwards to its borrowing counterpart in operand order; every Clone builds all fields from self and the types own their storage.",
+                "impl forwards to its borrowing counterpart in operand order; every Clone builds all fields from self and the types own their storage."
+            " Node and variable-index arguments of the mesh cross-sections, integrals and apply are rejected by an entry guard, not only inside a loop that an empty axis never enters.",
         "design_ref": "DESIGN.md §3 C20, Appendix A",
         "note": "Trusted: rustc's type checker / is_freeze / callee resolution, std's bounds checks for the Vec-forwarded methods, the rule engine. "
                 "Element types assumed Freeze. Raw (i,j) index operators outside the claim as the property says. Decides guard structure, not run-time outcomes.",
@@ -19,7 +20,8 @@ CHECKS["C03"] = {
     "text": "For all shapes at once: every dense-matrix operation has the definitional index discipline (no index bounded by one dimension "
             "is used against another: the rule that found the set_col defect), result shape, operand polarity (Sub: rhs negative, Div: scalar is the divisor), "
             "co-indexing, full 0..dim ranges, norm orientation, product construction (same column on both sides), transpose/swap/delete/resize "
-            "index arithmetic, and consuming forms forward in operand order.",
+            "index arithmetic, and consuming forms forward in operand order."
+            " norm_p returns norm_max() for p = inf before the power-sum formula (whose value there is 1 for every matrix).",
     "design_ref": "DESIGN.md §3 C03",
     "note": "Decides structure of each operation, not equality with a reference model over all values/histories (not decidable statically). "
             "Trusted: rustc typeck/callee resolution; the rule engine; Vec semantics (push/drain/clone).",
@@ -50,7 +52,8 @@ CHECKS["C17"] = {
     "text": "For all six Newton variants, for every user function: &self receiver over Freeze state without unsafe (configuration and guess cannot change); "
             "no hidden state read; the only loop is for _ in 0..self.max_iter and every reachable loop is a bounded for with an acyclic call graph; "
             "closure call sites per iteration counted; the only Ok is inside the loop behind the stopping test and carries the iterate; the fall-through "
-            "is Err(current); the step is f/f' (central difference with self.delta) resp. the solve_basic solution with the Jacobian at current.",
+            "is Err(current); the step is f/f' (central difference with self.delta) resp. the solve_basic solution with the Jacobian at current."
+            " The residual norm of the system variants (norm_inf) ignores no component, NaN included.",
     "design_ref": "DESIGN.md §3 C17",
     "note": "Not decided: Ok => within O(tol) of the root (a theorem about Newton's method and floating point). Assumes a deterministic user closure.",
     "technique": TECH + "receiver/Freeze typing proof, loop-shape and call-graph termination analysis, control-dependence of Ok on the stopping test",
@@ -78,7 +81,8 @@ CHECKS["C04"] = {
     "text": "For every n, m1, m2: Index/IndexMut share the in-band guard and the compact index (i, m1+j-i), proved in range from the negated guard; new/resize establish "
             "compact: n x (m1+m2+1) and the operators preserve it with the trait's operator; fill_band's guard entails its column; the matvec window provably never reads "
             "padding and indexes x by the true column; the pivot search compares magnitudes and is an arg-max; the row exchange, the sign flip and the recorded index are "
-            "paired; det multiplies the sign by the full pivot column; solve replays the recorded exchanges and multipliers with the same offsets.",
+            "paired; det multiplies the sign by the full pivot column; solve replays the recorded exchanges and multipliers with the same offsets."
+            " Every division in decompose is dominated by a test that the pivot differs from zero (a singular band has determinant 0, not NaN).",
     "design_ref": "DESIGN.md §3 C04",
     "note": "The initial left-shift/zero-fill is decided by resolving l as the induction variable m1 - i; the elimination window bound (l capped at n) is outside the linear prover; agreement with the dense result and backward error are numerical.",
     "technique": TECH + "single-fact linear entailment on index windows, magnitude/arg-max analysis, exchange/sign/index pairing, store/replay offset agreement",
@@ -156,7 +160,8 @@ CHECKS["C11"] = {
     "text": "For all coefficient vectors: Add/Sub take self positively and rhs with the trait's sign on every return path including the empty-operand shortcuts "
             "(Sub with empty self returns -rhs); results have max(deg,deg')+1 resp. deg+deg'+1 zero-initialised coefficients with each operand guarded by its own degree; "
             "the product index is the sum of the factor indices over full ranges; eval is Horner from the leading coefficient with i descending; derivative uses target i, "
-            "source i+1 and exactly i+1 repeated additions; derivative_n applies it n times; consuming forms forward in operand order; trim pops only trailing zeros; is_zero scans the full range.",
+            "source i+1 and exactly i+1 repeated additions; derivative_n applies it n times; consuming forms forward in operand order; trim pops only trailing zeros; is_zero scans the full range."
+            " No operation is certain to panic on the empty polynomial (unsigned subtraction negative at length 0, constant-index read, unwrap of degree()) at a site an empty operand can reach.",
     "design_ref": "DESIGN.md §3 C11",
     "note": "The ring and calculus laws as value equalities follow from these definitional formulae and are not decided as value statements.",
     "technique": TECH + "polarity on every return path, length/graded-index/Horner/derivative data-flow patterns, delegation check",
@@ -166,7 +171,8 @@ CHECKS["C12"] = {
             "past a constant cap (no continue), and every reachable callee loop is bounded with an acyclic call graph (never spins); the quotient term has length deg r - deg v + 1 "
             "with lead(r)/lead(v) at index deg r - deg v; one iteration does q <- q + t and r <- r - t*v with the same t and v (so u = q*v + r is a loop invariant in exact "
             "arithmetic); the cancelled leading coefficient of r is cleared explicitly (absorption test) so that progress does not rely on an exactly-zero rounding residue "
-            "(the genuine defect this rule found: [1,1,1]/[49] returned Err); the loop exits on r = 0 or deg r < deg v and returns Ok((q, r)).",
+            "(the genuine defect this rule found: [1,1,1]/[49] returned Err); the loop exits on r = 0 or deg r < deg v and returns Ok((q, r))."
+            " The cancelled leading coefficient is removed unconditionally before trim (a value test on the rounding residue, component-wise for Complex, does not guarantee the degree drops).",
     "design_ref": "DESIGN.md §3 C12, §4 no. 7",
     "note": "The size of the rounding error in q and r is not decided; nor is the astronomically unlikely chain of one-ulp residues that could still reach the cap.",
     "technique": TECH + "dominating Err guards, counter-capped loop shape + call-graph termination, term/update pairing, value-independent degree decrease",
@@ -185,9 +191,10 @@ CHECKS["C15"] = {
     "text": "For all lengths: the 12 element-wise operator impls have the trait's operator, operand order, co-indexing, full 0..size range and result length; consuming forms "
             "forward in operand order; every editing method is a single forwarding call to the std Vec method that defines it (so the vector is its Vec under any history); dot, "
             "sum/product slices (guards, ranges tiling [start,end]), abs, norm_1/2/p, both norm_inf (arg-max over magnitudes from |v_0|), find (first match, else size-1), "
-            "assign/conj/real and linspace/powspace have their definitional form.",
+            "assign/conj/real and linspace/powspace have their definitional form."
+            " Nothing is certain to panic on the empty vector; norm_inf covers every element from 0.0 and a NaN component replaces the running maximum. Two recorded open findings: norm_2 / norm_p sum unscaled powers (KNOWN-FINDING lines, exit 0).",
     "design_ref": "DESIGN.md §3 C15",
-    "note": "Norm axioms, monotonicity/end-point accuracy of generated sequences and exactness on representable data are not decided statically. Empty-vector reductions panic loudly and are not reported.",
+    "note": "Norm axioms beyond the range clause, monotonicity/end-point accuracy of generated sequences and exactness on representable data are not decided statically.",
     "technique": TECH + "polarity/co-index/full-range templates, forwarding-call delegation to std, reduction and arg-max patterns",
 }
 CHECKS["C19"] = {
